@@ -11,6 +11,16 @@ import cmdfam
 import vlib
 
 NR = {"read": 0, "write": 1, "close": 3, "fork": 57}
+# a binary of another architecture than the host's (Profile!ArchNames is the BINARY's table): an i386 ELF, for which socketcall exists and accept does not
+NR386 = {"read": 3, "write": 4, "close": 6, "socketcall": 102}
+GEN_CFG_386 = """CONSTANTS
+  Universe = {"read", "write", "close", "socketcall", "accept", "verif_bogus"}
+  ArchNames = {"read", "write", "close", "socketcall"}
+  MaxFound = %d
+  OutFile = "%s"
+  Dev = {}
+"""
+TRIVIAL_MAIN = "package main\n\nimport \"os\"\n\nfunc main() { os.Exit(0) }\n"
 GEN_CFG = """CONSTANTS
   Universe = {"read", "write", "close", "fork", "socketcall", "verif_bogus"}
   ArchNames = {"read", "write", "close", "fork"}
@@ -26,10 +36,11 @@ PRIOR_YAML = "seccomp:\n  default_action: errno\n  syscalls:\n  - action: allow\
 PRIOR_CODE = "package main\n\nvar earlier = []string{\n" + "".join('\t"%s",\n' % n for n in ["accept", "bind", "chdir", "dup", "epoll_wait", "fstat", "getpid"] * 12) + "}\n"
 
 
-def listing(found):
+def listing(found, goarch="amd64"):
     lines = []
     for i, name in enumerate(found):
-        lines += cmdfam.site_function(i, "f%d_%s" % (i, name), NR[name], via="raw" if i % 2 == 0 else "wrapper", pad=i % 3)
+        lines += cmdfam.site_function(i, "f%d_%s" % (i, name), (NR if goarch == "amd64" else NR386)[name], via="raw" if i % 2 == 0 else "wrapper", pad=i % 3,
+                                      raw_ins="SYSCALL" if goarch == "amd64" else ("INT $0x80", "SYSENTER")[i % 4 // 2])
     return "\n".join(lines) + ("\n" if lines else "")
 
 
@@ -55,11 +66,28 @@ def check(ctx, replay=None):
     out = ctx.path("profile_cases.json")
     ctx.tlc("ProfileGen", GEN_CFG % (3, out), workers=1, timeout=1200, java_opts="-Xss256m")
     cases = json.load(open(out))
+    for c in cases:
+        c["goarch"] = "amd64"
+    # the same for an i386 binary (cross-compiled trivial program; the listing is injected through the cache as for the host's)
+    bin386 = os.path.join(d, "target386")
+    src386 = ctx.path("main386", "main.go")
+    open(src386, "w").write(TRIVIAL_MAIN)
+    open(os.path.join(os.path.dirname(src386), "go.mod"), "w").write("module verif386\n\ngo 1.18\n")
+    rc, o, e = ctx.run(["go", "build", "-o", bin386, "."], cwd=os.path.dirname(src386), env={"GOARCH": "386", "CGO_ENABLED": "0"}, timeout=600)
+    if rc == 0:
+        out386 = ctx.path("profile_cases_386.json")
+        ctx.tlc("ProfileGen", GEN_CFG_386 % (2, out386), name="ProfileGen386", workers=1, timeout=1200, java_opts="-Xss256m")
+        c386 = json.load(open(out386))
+        for c in c386:
+            c["goarch"] = "386"
+        cases += c386
+    else:
+        ctx.note("no i386 binary could be built: %s" % e[-200:])
     rnd = random.Random(ctx.seed)
     rnd.shuffle(cases)
     # make sure the interesting classes are in: duplicates, arch-foreign and unknown names in the flags, empty results
     def interesting(c):
-        return (len(set(c["found"])) < len(c["found"]), "socketcall" in c["al"], "verif_bogus" in c["al"] + c["bl"], not c["expect"], bool(set(c["bl"]) & set(c["found"])))
+        return (c["goarch"], len(set(c["found"])) < len(c["found"]), "socketcall" in c["al"], "accept" in c["al"], "verif_bogus" in c["al"] + c["bl"], not c["expect"], bool(set(c["bl"]) & set(c["found"])))
     picked, seen = [], {}
     for c in cases:
         k = interesting(c)
@@ -77,17 +105,17 @@ def check(ctx, replay=None):
         bdir = os.path.join(work, "b%d" % i)
         os.makedirs(bdir, exist_ok=True)
         b = os.path.join(bdir, "target")
-        shutil.copy(os.path.join(d, "probetarget"), b)
+        shutil.copy(os.path.join(d, "probetarget") if c["goarch"] == "amd64" else bin386, b)
         cache = cmdfam.cache_path(b)
         created.append(cache)
         os.makedirs(os.path.dirname(cache), exist_ok=True)
         with open(cache, "w") as f:
-            f.write(cmdfam.file_sha256(b) + "\n" + listing(c["found"]))
+            f.write(cmdfam.file_sha256(b) + "\n" + listing(c["found"], c["goarch"]))
         fmt = "config" if i % 3 else "code"
         # Profile!Dests: standard output, a new -out file, or an -out file that already holds an earlier, longer profile
         dest = ("stdout", "newfile", "existing", "existing")[(i // 3) % 4]
         outf = os.path.join(bdir, "profile_{{.GOARCH}}.out" if i % 2 else "profile.out")
-        real_outf = outf.replace("{{.GOARCH}}", "amd64")
+        real_outf = outf.replace("{{.GOARCH}}", c["goarch"])
         if dest == "existing":
             with open(real_outf, "w") as f:
                 f.write(PRIOR_YAML if fmt == "config" else PRIOR_CODE)
@@ -119,7 +147,7 @@ def check(ctx, replay=None):
             want = sorted(c["expect"])
             if c["found"] and (c["bl"] or c["al"]):
                 ctx.cov["distinct_nontrivial"] += 1
-            rep = {"found": c["found"], "blacklist": c["bl"], "allow": c["al"], "format": fmt, "args": args[1:-1], "expected": want,
+            rep = {"binary": c["goarch"], "found": c["found"], "blacklist": c["bl"], "allow": c["al"], "format": fmt, "args": args[1:-1], "expected": want,
                    "destination": p.dest, "observed": names, "rc": p.returncode, "stderr": p.stderr[-300:], "how": "./check C18 quick"}
             # (no disassembler is reachable - PATH is an empty directory - so a run that succeeds has used the injected cache)
             if p.returncode != 0:
@@ -130,7 +158,7 @@ def check(ctx, replay=None):
                 ctx.violation("the emitted allow-list %s %s; expected %s" % (names, why, want), rep)
                 continue
             if fmt == "config":
-                closure_items.append({"yaml": p.profile_text, "names": names})
+                closure_items.append({"yaml": p.profile_text, "names": names, "arch": c["goarch"]})
             if sorted(c["code"]) != want:
                 ctx.drift({"case": c, "what": "code-shaped model differs from the reference"})
         rc, o, e = ctx.run([os.path.join(bindir, "textcheck"), "-mode", "closure"], input=json.dumps(closure_items), timeout=1200)
